@@ -130,6 +130,14 @@ def cases_for_table(carver, kind, cells, tier, seed, d_cfg, dev_level, nan_cells
     for nc in nan_cells:
         for dropna in (True, False):
             out.append(mk(nc, None, default, dropna))
+        if kind == "QNT":  # a cut point exactly at 0.0 (first or second boundary) next to missing values
+            for shift in (-1.0, -2.0):
+                for mn in (3, 2) if not lean else (3,):
+                    c = dict(default)
+                    c["max_n_mod"] = mn
+                    zc = mk(nc, None, c, True)
+                    zc["scale"] = [1.0, shift]
+                    out.append(zc)
         if lean:
             continue
         # stage 2 interacts with max_n_mod and min_freq_mod
@@ -156,6 +164,16 @@ def cases_for_table(carver, kind, cells, tier, seed, d_cfg, dev_level, nan_cells
         c["min_freq_mod"] = 0
         c["max_n_mod"] = 4
         out.append(mk(tiny, None, c, True))
+    # a single missing row that is too rare to stand alone, next to a cut point exactly at 0.0
+    if not lean and kind == "QNT":
+        tiny = [(3,)] if carver == "continuous" else ([(0, 1), (1, 0)] if carver == "binary" else [(0, 0, 1)])
+        for t in tiny:
+            for shift in (-1.0, -2.0):
+                c = dict(default)
+                c["min_freq_mod"] = 0.125
+                zc = mk(t, None, c, True)
+                zc["scale"] = [1.0, shift]
+                out.append(zc)
     for name, dcells in dev_variants(carver, list(cells), alpha, dev_level):
         if not any(sum(c) if binary_like(carver) else len(c) for c in dcells):
             continue
